@@ -537,6 +537,59 @@ impl World {
         true
     }
 
+    /// `requests()` on a server with NOTHING to do, interrupted by a signal: `epoll_wait` returns EINTR, which
+    /// the server must treat as "no events" (return normally, empty). Only call when the epoll fd is not ready.
+    pub fn poll_interrupted(&mut self, rec: &mut Rec) {
+        if self.server.is_none() || self.ready() {
+            return;
+        }
+        extern "C" fn on_alarm(_: libc::c_int) {}
+        #[repr(C)]
+        struct Timeval {
+            tv_sec: libc::c_long,
+            tv_usec: libc::c_long,
+        }
+        #[repr(C)]
+        struct Itimerval {
+            it_interval: Timeval,
+            it_value: Timeval,
+        }
+        extern "C" {
+            fn setitimer(which: libc::c_int, new_value: *const Itimerval, old_value: *mut Itimerval) -> libc::c_int;
+        }
+        // SAFETY: installs a no-op handler WITHOUT SA_RESTART and arms a one-shot 30 ms timer
+        unsafe {
+            let mut sa: libc::sigaction = std::mem::zeroed();
+            sa.sa_sigaction = on_alarm as usize;
+            sa.sa_flags = 0;
+            libc::sigemptyset(&mut sa.sa_mask);
+            libc::sigaction(libc::SIGALRM, &sa, std::ptr::null_mut());
+            let it = Itimerval {
+                it_interval: Timeval { tv_sec: 0, tv_usec: 0 },
+                it_value: Timeval { tv_sec: 0, tv_usec: 30_000 },
+            };
+            setitimer(0 /* ITIMER_REAL */, &it, std::ptr::null_mut());
+        }
+        Rec::about_to("server.requests() interrupted by a signal");
+        let server = self.server.as_mut().unwrap();
+        let res = catch_unwind(AssertUnwindSafe(|| server.requests()));
+        let tail = format!("w=[] {} dropped=[] refused=0", self.interest_text());
+        let out = match res {
+            Err(_) => {
+                self.poll_errors.push("PANIC".into());
+                format!("PANIC {}", tail)
+            }
+            Ok(Ok(reqs)) => format!("ok reqs=[{}] {}", if reqs.is_empty() { "" } else { "?" }, tail),
+            Ok(Err(ServerError::ShutdownEvent)) => format!("shutdown {}", tail),
+            Ok(Err(e)) => {
+                self.poll_errors.push(format!("interrupted poll: {:?}", e));
+                format!("err({:?}) {}", e, tail).replace('\n', " ")
+            }
+        };
+        self.note(rec, "the next poll is interrupted by a signal while nothing is ready (EINTR)");
+        self.emit(rec, "srv poll".to_string(), out);
+    }
+
     /// Answer held request number `k` with `spec`.
     pub fn respond(&mut self, rec: &mut Rec, k: usize, spec: &RespSpec) {
         if k >= self.held.len() || self.server.is_none() {
